@@ -54,7 +54,7 @@ def parseUOp (j : Json) : R (Op FB) := do
     | none => throw "op1"
   | t => throw s!"unknown c14 op {t}"
 
-def kindName : Uncert.Kind → String
+private def kindName : Uncert.Kind → String
   | .single => "single" | .repeated => "repeated" | .derived => "derived"
 
 def putHeap (h : Heap FB) : Json :=
